@@ -1,0 +1,166 @@
+// SPDX-License-Identifier: Apache-2.0 or BSD-3-Clause
+
+//! Verification hooks (cargo feature `verif-hooks`, off by default).
+//!
+//! A deterministic simulator installs one table of function pointers with [`install`]. Until
+//! that happens every helper in this module is a relaxed atomic load and a branch, so building
+//! with the feature on but without a simulator leaves the behaviour of the crate unchanged.
+//!
+//! The helpers mark the places where a thread can observe or influence another party:
+//! blocking system calls, lock acquisitions, thread creation/termination and the socket I/O
+//! itself (where the simulator may shorten a transfer or fail it with an errno of its choice).
+
+#![allow(missing_docs)]
+
+use std::os::unix::io::RawFd;
+use std::os::unix::net::UnixStream;
+use std::sync::atomic::{AtomicPtr, Ordering};
+use std::sync::{Mutex, RwLock, TryLockError};
+
+use libc::iovec;
+
+/// Table of callbacks provided by the simulator.
+pub struct Hooks {
+    /// Is the calling thread a task of a running simulation?
+    pub is_task: fn() -> bool,
+    /// Plain yield point.
+    pub point: fn(label: &'static str),
+    /// Called before a system call that may block until `fd` is readable/writable.
+    pub wait_fd: fn(fd: RawFd, write: bool, label: &'static str),
+    /// Called before an operation that blocks until `ready()` returns true.
+    pub wait_until: fn(ready: &dyn Fn() -> bool, label: &'static str),
+    /// Performs (or fails, or shortens) a `sendmsg` on `sock`. Errors are raw errno values.
+    pub send: fn(sock: &UnixStream, iovs: &[&[u8]], fds: &[RawFd]) -> Result<usize, i32>,
+    /// Performs (or fails, or shortens) a `recvmsg` on `sock`.
+    pub recv: unsafe fn(
+        sock: &UnixStream,
+        iovs: &mut [iovec],
+        fds: &mut [RawFd],
+    ) -> Result<(usize, usize), i32>,
+    /// Called by the parent right after it spawned a thread whose body calls `thread_enter`.
+    pub thread_spawned: fn(),
+    /// Called as the first action of a spawned thread.
+    pub thread_enter: fn(role: &'static str),
+    /// Called before joining the thread with the given id.
+    pub before_join: fn(id: std::thread::ThreadId),
+}
+
+static HOOKS: AtomicPtr<Hooks> = AtomicPtr::new(std::ptr::null_mut());
+
+/// Install the simulator's hook table. May be called once per process.
+pub fn install(hooks: &'static Hooks) {
+    HOOKS.store(hooks as *const Hooks as *mut Hooks, Ordering::Release);
+}
+
+#[inline]
+fn hooks() -> Option<&'static Hooks> {
+    let p = HOOKS.load(Ordering::Acquire);
+    if p.is_null() {
+        None
+    } else {
+        // SAFETY: only ever set from a `&'static Hooks`.
+        Some(unsafe { &*p })
+    }
+}
+
+#[inline]
+fn task_hooks() -> Option<&'static Hooks> {
+    hooks().filter(|h| (h.is_task)())
+}
+
+#[inline]
+pub fn point(label: &'static str) {
+    if let Some(h) = task_hooks() {
+        (h.point)(label)
+    }
+}
+
+#[inline]
+pub fn wait_readable(fd: RawFd, label: &'static str) {
+    if let Some(h) = task_hooks() {
+        (h.wait_fd)(fd, false, label)
+    }
+}
+
+#[inline]
+pub fn wait_writable(fd: RawFd, label: &'static str) {
+    if let Some(h) = task_hooks() {
+        (h.wait_fd)(fd, true, label)
+    }
+}
+
+#[inline]
+pub fn before_mutex<T>(m: &Mutex<T>, label: &'static str) {
+    if let Some(h) = task_hooks() {
+        (h.wait_until)(
+            &|| !matches!(m.try_lock(), Err(TryLockError::WouldBlock)),
+            label,
+        )
+    }
+}
+
+#[inline]
+pub fn before_read<T>(m: &RwLock<T>, label: &'static str) {
+    if let Some(h) = task_hooks() {
+        (h.wait_until)(
+            &|| !matches!(m.try_read(), Err(TryLockError::WouldBlock)),
+            label,
+        )
+    }
+}
+
+#[inline]
+pub fn before_write<T>(m: &RwLock<T>, label: &'static str) {
+    if let Some(h) = task_hooks() {
+        (h.wait_until)(
+            &|| !matches!(m.try_write(), Err(TryLockError::WouldBlock)),
+            label,
+        )
+    }
+}
+
+/// `Some(result)` when a simulator performed the transfer, `None` to fall through to the
+/// regular system call.
+#[inline]
+pub fn send(
+    sock: &UnixStream,
+    iovs: &[&[u8]],
+    fds: &[RawFd],
+) -> Option<Result<usize, vmm_sys_util::errno::Error>> {
+    task_hooks().map(|h| (h.send)(sock, iovs, fds).map_err(vmm_sys_util::errno::Error::new))
+}
+
+/// See [`send`].
+///
+/// # Safety
+///
+/// Same contract as `ScmSocket::recv_with_fds`.
+#[inline]
+pub unsafe fn recv(
+    sock: &UnixStream,
+    iovs: &mut [iovec],
+    fds: &mut [RawFd],
+) -> Option<Result<(usize, usize), vmm_sys_util::errno::Error>> {
+    task_hooks().map(|h| (h.recv)(sock, iovs, fds).map_err(vmm_sys_util::errno::Error::new))
+}
+
+#[inline]
+pub fn thread_spawned() {
+    if let Some(h) = task_hooks() {
+        (h.thread_spawned)()
+    }
+}
+
+#[inline]
+pub fn thread_enter(role: &'static str) {
+    if let Some(h) = hooks() {
+        (h.thread_enter)(role)
+    }
+}
+
+#[inline]
+pub fn before_join(id: std::thread::ThreadId) {
+    if let Some(h) = task_hooks() {
+        (h.before_join)(id)
+    }
+}
